@@ -72,27 +72,31 @@ CHECKS = {
              "schema level.  Packages: two adding implementers (one with an extender of an implementer), one defining "
              "another package's type name differently, one needing an absent abstract type; a package without "
              "component, a plain module, a missing name.  Texts: all event sequences to depth 4-5; histories: all "
-             "sequences of <= 2-4 loads of 8 representative texts.  Outcome == reference (admission set = declared "
+             "sequences of <= 2-4 loads of 17 representative texts (every 'import X, use a type of Y' combination over "
+             "three components); every explored text with an import and a use is also cut into two resources at every "
+             "point, in both include directions, and must give the same outcome.  Outcome == reference (admission set = declared "
              "implementers + imported earlier in THIS load; import idempotent; non-components refused); digest of the "
              "schema (implementer tables, type table, children, defaults, components) unchanged.",
         note="Known finding (findings.d/C12.json): %import leaks implementers into the application schema's abstract "
              "types; follow-on outcome differences are attributed only when the failing text uses a type name imported "
-             "by an earlier load.  Trusted: vz/ref/match.py, schema_digest().",
+             "by an earlier load AND itself imports a package that defines that name differently.  Trusted: vz/ref/match.py, schema_digest().",
         design="DESIGN.md section 3, C12", engine="E2 bfs"),
     "C13": dict(
         category="model_checking",
         technique="exhaustive enumeration of all operation sequences up to depth 4/5 on one schema object plus an "
                   "explicit-state breadth-first search to depth 8 with state = structural digest of the schema; "
                   "differential oracle (same operation on a fresh schema) and digest invariant on every step",
-        text="15 operations: valid loads (defaults only / everything supplied), invalid loads with the fault at the "
+        text="18 operations: valid loads (defaults only / everything supplied), invalid loads with the fault at the "
              "syntax, matching, key-conversion, value-conversion, default-vs-value, section-datatype and top-level "
-             "finish stage, loads around '%import' (two packages defining one type name differently), loads with "
+             "finish stage, six loads around '%import' (two different components - what one load imported must not be "
+             "usable in the next -, and a third one defining a type name differently), loads with "
              "convertible / unconvertible overrides, mutation of every list/dict reachable from the last result.  Each "
              "step's outcome == outcome on a freshly loaded schema; schema digest (types, implementers, children, key "
              "and attribute maps, default stores incl. raw defaults, components, registry) unchanged.  If every "
              "operation maps the start state to itself the BFS closes after one level and longer sequences are covered "
              "by induction on the digest; the explicit sweep guards the digest's completeness.",
-        note="Known findings (findings.d/C13.json): the C12 import leak and its follow-on.  Trusted: schema_digest().",
+        note="Known findings (findings.d/C13.json): the C12 import leak and its follow-on (attributed only to the load "
+             "that redefines the leaked type name).  Trusted: schema_digest().",
         design="DESIGN.md section 3, C13", engine="E2 bfs"),
     "C07": dict(
         category="model_checking",
@@ -104,9 +108,16 @@ CHECKS = {
              "out-of-vocabulary characters at every position, delete / duplicate / swap of every token and line, "
              "insertion of 22 junk lines at every line position - for every seed (accepted corpus texts, a 40-line "
              "text with defines, nesting, %import); (b) valid override specifiers, all their single mutations and "
-             "pairs; (c) every include graph on 3 in-memory files (cycles and self-loops included) at top level and "
-             "inside a section: cyclic graphs rejected, acyclic top-level graphs accepted; (d) validator.main on 1-3 "
-             "files: status 0/1, one message per invalid file in order.  Only ZConfig.ConfigurationError-family "
+             "pairs, for seeds chosen so that every section-type path of the corpus is addressed; (a2) every identifier "
+             "of the schema (key, slot, attribute, type names) in every line role (key, section type, section name "
+             "under every type, closer) at every line position; (b2) a purpose-built schema with integer / boolean / "
+             "wildcard keys at depth 0..3 under two key types: 14 paths x 8 keys x 7 values as specifiers with all "
+             "their single mutations and ordered pairs, against every long/short spelling of the text; (c) every "
+             "include graph on 3 in-memory files (cycles and self-loops included) at top level and inside a section, "
+             "entered by URL and from a URL-less top-level text: cyclic graphs rejected, acyclic top-level graphs "
+             "accepted; (d) validator.main on 1-3 files: status 0/1, one message per invalid file in order; (e) "
+             "'%include' / '%import' with every argument built from 12 URL prefixes + <= 2 (thorough 3) tokens of a "
+             "16-token URL alphabet, from a named and from a URL-less top.  Only ZConfig.ConfigurationError-family "
              "exceptions may escape.",
         note="Schemas use only ValueError-raising datatypes.  Remote URLs not covered.",
         design="DESIGN.md section 3, C07", engine="E3 deviate"),
@@ -237,8 +248,9 @@ CHECKS = {
                   "up to the length bound over a specifier alphabet derived from the seed's section tree, with a "
                   "differential oracle (override load vs load of the text edited by the statement's rule) cross-checked "
                   "against the reference conformance model",
-        text="Seeds: accepted texts with >= 1 section from the reference-model BFS over the schema family and two rich "
-             "3-level schemas.  Specifiers: every section by name / type / upper case to depth 3 x declared, absent, "
+        text="Seeds: accepted texts with >= 1 section from the reference-model BFS over the schema family, two rich "
+             "3-level schemas, and every key-like item one / two levels down in a container whose key type differs "
+             "from the schema's (a specifier's key is normalised by the key type of the section it addresses).  Specifiers: every section by name / type / upper case to depth 3 x declared, absent, "
              "unknown, wildcard-captured and key-type-refused keys x convertible, empty, unconvertible, '$', '$$' and "
              "'=' values; absent sections; malformed specifiers.  All singles, all ordered pairs over an interacting "
              "sub-alphabet (thorough: triples and quadruples).  Equal tree or both rejected; must-reject cases; "
@@ -251,7 +263,8 @@ CHECKS = {
         technique="explicit-state breadth-first search over the real loader/matcher transition function "
                   "(states = canonical open-matcher state, rebuilt by replaying event histories) for every schema "
                   "of a generated family, every transition compared with an independent reference conformance predicate",
-        text="For every schema of the family (ordered selections of <= 2 items from a 54-item menu as container "
+        text="For every schema of the family (ordered selections of <= 2 items from a 56-item menu - incl. required "
+             "wildcard maps that also carry defaults - as container "
              "under test; placements top/1/2 levels down; key types basic-key/identifier/ipaddr-or-hostname; "
              "abstract type with 0..3 implementers, derived types, required key inside optional section, rejecting / "
              "wrapping section datatypes) all event sequences up to the depth bound are explored breadth-first, "
@@ -260,10 +273,11 @@ CHECKS = {
              "Exhaustive within the bounds; the model (reference) is compared with the code on every transition, "
              "so traces_validated_against_impl == transitions.",
         note="Trusted: vz/ref/match.py, vz/gen/schema.py (renderer).  UNSPEC (executed, not compared): header "
-             "name equal to a reserved key / fixed section name while a wildcard slot fits (u1), several slots fit "
+             "name equal to a reserved key / fixed section name DECLARED BEFORE the wildcard slot that fits (u1; with "
+             "the slot declared first the statement decides: accepted), several slots fit "
              "or an earlier type-fitting wildcard slot refuses the name (u2), key spelled like a fixed section "
              "name while a '+' key exists (u3).  Not generated: required together with defaults on multikey / "
-             "wildcard keys (u4).",
+             "plain multikeys (u4; on wildcard maps it is decided: the text must fill the map).",
         design="DESIGN.md section 3, C01", engine="E2 bfs"),
     "C02": dict(
         category="model_checking",
@@ -272,7 +286,8 @@ CHECKS = {
                   "and a mutate-then-reload differential on every accepted node",
         text="Schemas: one item of every kind x 12 standard datatypes (token table with independent expected "
              "values), the C01 string/integer/section menu with wrapping and rejecting section datatypes, "
-             "placements 0-2, three key types.  On every accepted node: tree(config) == reference tree (attribute "
+             "placements 0-2, three key types, derived containers under another key type, abstract slots whose "
+             "implementers carry different section datatypes (each member through ITS datatype).  On every accepted node: tree(config) == reference tree (attribute "
              "set and order, converted values, defaults, wildcard maps keyed by the normalised key, "
              "all-or-nothing wildcard defaults, multisection order, section datatype applied, type and lower-cased "
              "name); no list/dict object occurs twice in one result; public attributes == getSectionAttributes(); "
@@ -289,11 +304,13 @@ CHECKS = {
              "character class, under every define/undefine subset of the names it references, is "
              "executed on the real substitute()/isname() and compared with a reference scanner "
              "written from the statement; plus all 1.1M code points at one position of five "
-             "contexts and all single (double) deviations of a 200-char seed.  Exhaustive within "
+             "contexts (isname: four positions), a letter-class consistency oracle for every non-ASCII "
+             "letter (a name character at the start iff inside, for isname and for '$name' scanning) "
+             "and all single (double) deviations of a 200-char seed.  Exhaustive within "
              "the bound; a pure function has no state, so enumeration of inputs is the whole "
              "behaviour space.",
-        note="Trusted: the reference scanner vz/ref/subst.py.  Unspecified (totality only): "
-             "non-ASCII alphanumerics adjacent to a name.  Not covered: strings longer than the "
+        note="Trusted: the reference scanner vz/ref/subst.py.  Unspecified (totality and the "
+             "consistency oracle only): non-ASCII alphanumerics adjacent to a name.  Not covered: strings longer than the "
              "bound that are not 1-2 deviations from the seed.",
         design="DESIGN.md section 3, C04", engine="E1 enumerate"),
     "C03": dict(
@@ -307,7 +324,10 @@ CHECKS = {
              "verdict, the error class and the error line are compared with a hand-written reference "
              "scanner.  The grammar is a pushdown recogniser whose behaviour per line depends only on the "
              "line class and the open-section stack, so short lines x short texts x deviations of a deep "
-             "seed cover its transitions; exhaustive within the stated bounds.",
+             "seed cover its transitions; directive names are additionally swept over the tree's own "
+             "identifier vocabulary (every name visible on the parser / loader classes, cut at '_' "
+             "boundaries, three letter cases, near-misses of the real directives); exhaustive within the "
+             "stated bounds.",
         note="Trusted: vz/ref/lines.py; whitespace = str.isspace(). Which of several faults on one line is "
              "reported is unspecified. Position of SubstitutionSyntaxError is left to C08.",
         design="DESIGN.md section 3, C03", engine="E1 enumerate"),
@@ -317,8 +337,11 @@ CHECKS = {
                   "line alphabet) with a differential round-trip oracle parse->str->parse->str",
         text="For every enumerated text the schema-less loader accepts, str() of the result is loaded again "
              "and must give a structurally equal result whose str() is identical; texts with %define/%include "
-             "must be refused.  Exhaustive within the bounds; the oracle needs no expected values.",
-        note="Trusted: structural comparison in vz/props/c17.py. Known finding: headers ending in '/'.",
+             "must be refused; the alphabet holds '$$' in values and import names, '$(NAME)' against a fixed "
+             "environment, repeated keys, mixed case, nested and empty sections.  Exhaustive within the bounds; "
+             "the oracle needs no expected values.",
+        note="Trusted: structural comparison in vz/props/c17.py. Known findings: headers ending in '/'; values "
+             "with outer blanks (reachable through '$(NAME)' only).",
         design="DESIGN.md section 3, C17", engine="E1 enumerate"),
 }
 
